@@ -535,6 +535,9 @@ func (x *microCtx) setup() string {
 
 // RunMicro is the scenario body (thread 0 of a controlled execution).
 func RunMicro(spec MicroSpec) vx.Out {
+	if spec.State == "tbacklog2" {
+		return runRestartScenario(spec)
+	}
 	x := &microCtx{held: -1, spec: spec, deliv: map[string][]int{}, delivTo: map[string][]string{}, finOK: map[string]bool{}, delivBody: map[string]string{}, delivAt: map[string][]int64{}, touchOK: map[string]int64{}, touchBy: map[string]string{}, reqOK: map[string]int{}}
 	if e := x.setup(); e != "" {
 		if x.w != nil {
